@@ -56,7 +56,7 @@ struct LtWorld : World {
         if (mtm) op.k = wpick(r, {{40, LT_PUT}, {20, LT_GET}, {8, LT_GETMULTI}, {20, LT_REMOVE}, {4, LT_CLEAR}, {8, LT_LOCKEDWALK}});
         else op.k = wpick(r, {{40, LT_PUT}, {12, LT_GET}, {8, LT_GETMULTI}, {10, LT_REMOVE}, {8, LT_WALK}, {6, LT_WALKREMOVE}, {4, LT_SORT}, {4, LT_SIZE}, {1, LT_CLEAR},
                               {(prop == "C15" || prop == "C14") ? 1 : 5, LT_SAVELOAD}, {c14 ? 3 : 0, LT_DEBUG}, {c14 ? 6 : 0, LT_LOCKEDWALK},
-                              {(prop == "C08" || prop == "C11") ? 3 : 0, LT_LOADFILE}, {c14 ? 3 : 0, LT_SAVEFULL}});
+                              {prop == "C11" ? 3 : 0, LT_LOADFILE}, {c14 ? 3 : 0, LT_SAVEFULL}});
         op.a = (int)r.below((uint32_t)Uc);
         switch (op.k) {
         case LT_PUT: {
@@ -235,10 +235,10 @@ struct LtWorld : World {
             bool newmem = op.d & 1; size_t cnt = (size_t)-1; qlisttbl_data_t *objs;
             CallerBuf kb(kz);
             { InSut s; objs = t->getmulti(t, (const char *)kb.p, newmem, &cnt); }
-            if (!objs) return R_fail(num((long long)cnt));
+            if (!objs) return R_fail();    // what *numobjs holds after a refused call is not specified
             Bytes out = num((long long)cnt) + ":";
             for (size_t i = 0; i < cnt; i++) enc(out, Bytes((const char *)objs[i].data, objs[i].size));
-            if (objs[cnt].type != 0) out += "!no-end-mark";
+            if (objs[cnt].data != nullptr) out += "!no-end-mark";     // the documented loop ends at data == NULL
             if (newmem && x.o_alias && !mt && !pending) {
                 // keep the copied result set across the next operations: it must stay intact until the client releases it
                 pending = objs; pending_expect.clear(); pending_age = 0;
@@ -388,7 +388,7 @@ Result LtModel::apply(const Op &op) {
     Bytes k = w->key(op.a);
     switch (op.k) {
     case LT_PUT: {
-        if (op.d & (NULLKEY | NULLDATA)) return R_fail();
+        if ((op.d & NULLKEY) || ((op.d & NULLDATA) && (op.d & 3) != 3)) return R_fail();     // putint takes no data pointer
         Bytes val = w->value(op);
         if (op.d & SELFREF) { auto idx = lookup_order(&k); if (idx.empty()) return R_ok("skip"); const Bytes &cur = v[idx[0]].second; val = cur.substr((size_t)op.c % cur.size()); }
         else
@@ -407,7 +407,7 @@ Result LtModel::apply(const Op &op) {
     }
     case LT_GETMULTI: {
         auto idx = lookup_order(&k);
-        if (idx.empty()) return R_fail("0");
+        if (idx.empty()) return R_fail();
         Bytes out = num((long long)idx.size()) + ":";
         for (size_t i : idx) enc(out, v[i].second);
         return R_ok(out);
